@@ -257,7 +257,7 @@ func genLongProp(t *rapid.T) LongPropCase {
 		c.Suffix = rapid.SampledFrom([]string{"", "", ";v=1", " "}).Draw(t, "suffix")
 	}
 
-	c.File = rapid.SampledFrom([]string{"long.properties", "secret.prop", "tokens"}).Draw(t, "file")
+	c.File = drawPropFile(t, []string{"long.properties", "secret.prop", "tokens"}, "file") // path below the temp dir (names_test.go)
 	c.Name = rapid.SampledFrom(lpKeys).Draw(t, "name")
 	kindOfValue := func() string { return rapid.SampledFrom([]string{"jwt", "jwt", "base64", "pairs"}).Draw(t, "valueKind") }
 	short := func(used map[string]bool) LPLine {
@@ -320,7 +320,7 @@ func genLongProp(t *rapid.T) LongPropCase {
 }
 
 func (c LongPropCase) placeholder() string {
-	return "${property:" + filepath.Join(propDir, c.File) + "#" + c.Name + "}"
+	return "${property:" + filepath.Join(propDir, filepath.FromSlash(c.File)) + "#" + c.Name + "}"
 }
 
 func clipDiff(s string) string {
@@ -451,6 +451,11 @@ func checkLongProp(c LongPropCase, o *vf.Obs) error {
 		o.ClassIf(injectedAtChunk, "key_named_inside_long_value_at_4096n")
 	}
 	o.NonTrivial()
+	if pb, pt, _, pu := spellingOf(c.File, "./-"); true {
+		o.ClassIf(pb || pt, "path:interior_blank")
+		o.ClassIf(pu, "path:non_ascii")
+		o.ClassIf(strings.Contains(c.File, "/"), "path:sub_dir")
+	}
 	o.Note("placeholder", c.Prefix+c.placeholder()+c.Suffix)
 	o.Note("file_lines", fmt.Sprint(len(lines)))
 
@@ -461,7 +466,10 @@ func checkLongProp(c LongPropCase, o *vf.Obs) error {
 	if !resL.accepted() {
 		return fmt.Errorf("harness: the literal configuration (%s/%s = %d bytes of text) was not accepted: %s", c.Site, c.Key, len(literal), firstLine(resL.String(), 400))
 	}
-	path := filepath.Join(propDir, c.File)
+	path, err := propPath(c.File)
+	if err != nil {
+		return err
+	}
 	if err := os.WriteFile(path, []byte(body), 0o644); err != nil {
 		return err
 	}
